@@ -12,4 +12,134 @@ def run(tier, seed):
 
 
 def replay(path):
+    import json
+    rp = json.load(open(path))
+    if rp.get("kind") == "client":
+        from .. import engine
+        with engine.Quiet():
+            r = _connect_case(tuple(rp["case"]["args"]))
+        engine.say(f"replay: CONNECT_V2 seen by the manager: {r.get('v2')}  info: {r.get('info')}")
+        n, viol = 0, []
+        v2 = r.get("v2") or {}
+        entry, module_id, logger, daemon, multi, name, tc = r["args"]
+        if v2.get("multi") != int(multi) or v2.get("daemon") != int(daemon) or v2.get("logger") != int(logger):
+            viol.append({"signature": rp["signature"], "replay": rp})
+        return {"level": "model_checking", "coverage": {}, "violations": viol}
     return hubprops.replay("C06", path)
+
+
+# ------------------------------------------------------------------------------------------------
+# the options a caller passes when connecting take effect at the manager exactly as named,
+# through every public way of connecting (Client.connect, client_context)
+# ------------------------------------------------------------------------------------------------
+def _connect_case(args):
+    """one real Client connecting to the real manager over vio; returns what the manager was told and what it did"""
+    import itertools
+    from ..hub import Hub
+    from .. import engine as _e
+    entry, module_id, logger, daemon, multi, name, timecode = args
+    h = Hub(timecode=timecode)
+    out = {"args": list(args)}
+    try:
+        import pyrtma.client as C
+        h.open("mon")
+        from .. import scenarios as S
+        h.send("mon", S.con(9))
+        h.run_until_quiet()
+        for t in (32, 33):
+            h.send("mon", S.sub(15, 9, t))
+        h.run_until_quiet()
+        n0 = len(h.events)
+        cm = None
+        try:
+            if entry == "connect":
+                c = C.Client(module_id=module_id, timecode=timecode, name=name)
+                c.connect("127.0.0.1:7111", logger_status=logger, daemon_status=daemon, allow_multiple=multi)
+            else:
+                cm = C.client_context(module_id=module_id, server_name="127.0.0.1:7111", timecode=timecode,
+                                      logger_status=logger, allow_multiple=multi, name=name)
+                c = cm.__enter__()
+            h.run_until_quiet()
+            out["client_id"] = c.module_id
+            out["connected"] = c.connected
+        except Exception as e:  # noqa
+            out["error"] = type(e).__name__
+            c = None
+        evs = h.events[n0:]
+        v2 = [e["in"]["p"] for e in evs if e.get("a") == "Svc" and e.get("in", {}).get("k") == "f" and e["in"]["t"] == 4]
+        out["v2"] = v2[0] if v2 else None
+        kname = [n for n in h.net.ends if n.startswith("k")]
+        kname = kname[-1] if kname else None
+        acks = [f for e in evs if e.get("a") == "Svc" for f in e.get("emit", {}).get(kname, []) if f["t"] == 2]
+        out["ack_dst"] = acks[0]["dst"] if acks else None
+        infos = [f["p"] for e in evs if e.get("a") == "Svc" for f in e.get("emit", {}).get("mon", []) if f["t"] == 32]
+        out["info"] = infos[0] if infos else None
+        out["manager_sees"] = None
+        for s, m in h.mgr.modules.items():
+            if getattr(s, "name", None) == kname:
+                out["manager_sees"] = {"id": m.mod_id, "logger": m.is_logger, "daemon": m.is_daemon, "unique": m.unique, "name": m.name}
+        try:
+            if cm is not None:
+                cm.__exit__(None, None, None)
+            elif c is not None:
+                c.disconnect()
+        except Exception:
+            pass
+    finally:
+        h.close()
+    return out
+
+
+def client_options(tier: str, seed: int):
+    import itertools
+    import multiprocessing as mp
+    cases = []
+    for entry in ("connect", "context"):
+        for module_id, logger, daemon, multi, name, tc in itertools.product((0, 11), (False, True), (False, True), (False, True), ("", "probe"), (False, True)):
+            if entry == "context" and daemon:
+                continue        # client_context has no daemon option
+            cases.append((entry, module_id, logger, daemon, multi, name, tc))
+    from .. import engine
+    with engine.Quiet():
+        with mp.get_context("fork").Pool(12) as pool:
+            res = pool.map(_connect_case, cases, chunksize=4)
+    viol = []
+    for r in res:
+        entry, module_id, logger, daemon, multi, name, tc = r["args"]
+        want = {"logger": int(logger), "daemon": int(daemon), "multi": int(multi), "id": module_id, "name": name}
+        v2 = r.get("v2")
+        if r.get("error") or v2 is None:
+            viol.append({"signature": f"C06/ShouldAccept/client:{entry}:{r.get('error')}", "replay": {"kind": "client", "case": r}})
+            continue
+        for k, w in want.items():
+            got = v2.get(k)
+            if k == "name" and module_id and not name:
+                continue        # a static id may pick up a default name from the context
+            if got != w:
+                viol.append({"signature": f"C06/OptionNotHonoured/{k}:{entry}", "replay": {"kind": "client", "case": r, "option": k, "sent": got, "asked": w}})
+        info = r.get("info") or {}
+        if info and (info.get("logger") != int(logger) or info.get("uniq") != int(not multi)):
+            viol.append({"signature": f"C06/OptionNotHonoured/at-manager:{entry}", "replay": {"kind": "client", "case": r}})
+        # the client learns its id from the acknowledgement
+        if r.get("client_id") != r.get("ack_dst") or (module_id and r.get("client_id") != module_id) or (not module_id and not (100 <= (r.get("client_id") or 0) < 200)):
+            viol.append({"signature": f"C06/AckIdMismatch/client:{entry}", "replay": {"kind": "client", "case": r}})
+    uniq, seen = [], set()
+    for x in viol:
+        if x["signature"] not in seen:
+            seen.add(x["signature"])
+            uniq.append(x)
+    return len(cases), uniq
+
+
+_hub_run = run
+
+
+def run(tier, seed):  # noqa: F811
+    res = _hub_run(tier, seed)
+    n, viol = client_options(tier, seed)
+    res["violations"] += viol
+    res["coverage"]["client_entry_point_cases"] = n
+    res["coverage"]["traces_validated_against_impl"] += n
+    res["coverage"]["explanation"] += ("; every option combination through Client.connect and client_context is executed with a real Client: the CONNECT_V2 "
+                                       "frame the manager reads, the CLIENT_INFO it publishes and the id adopted from the ACK must be what the caller named")
+    return res
